@@ -193,6 +193,7 @@ SCALARS = {
     'double': 'bg_real',        # A-REAL (unbounded tier)
     'long double': 'bg_real',   # A-REAL
     'void': 'void',
+    'std::_Ios_Openmode': 'int',
 }
 
 LABELS = {
@@ -238,6 +239,9 @@ STL = {
     'std::ifstream': ('bg_ifstream', 'ifstream'),
     'std::ofstream': ('bg_ofstream', 'ofstream'),
     'std::basic_ifstream<char>': ('bg_ifstream', 'ifstream'),
+    'std::basic_istream<char>': ('bg_ifstream', 'ifstream'),
+    'std::basic_ostream<char>': ('bg_ofstream', 'ofstream'),
+    'std::basic_ios<char>': ('bg_ios', 'ios'),
     'std::basic_ofstream<char>': ('bg_ofstream', 'ofstream'),
     'std::string': ('bg_string', 'string'),
     'std::basic_string<char>': ('bg_string', 'string'),
@@ -492,7 +496,14 @@ class Program:
                     tags.append(self.record_cname(t) if t in self.records else type_tag(t))
                 except ExtractError:
                     tags.append(re.sub(r'\W+', '_', t))
-            # template-template argument: take it from the first parameter type
+            # template-template argument: take it from the first parameter type, or from the result type
+            # when no parameter mentions it (loaders)
+            rt = fi['node']['type']['qualType'].split('(')[0].strip()
+            rt = norm_type_str(parse_cv_ref(rt)[0])
+            params0 = [c for c in inner(fi['node']) if c['kind'] == 'ParmVarDecl']
+            ptypes = [norm_type_str(parse_cv_ref(p['type'].get('desugaredQualType', p['type']['qualType']))[0]) for p in params0]
+            if rt in self.records and not any(t in self.records for t in ptypes):
+                tags.append(self.record_cname(rt))
         params = [c for c in inner(fi['node']) if c['kind'] == 'ParmVarDecl']
         for p in params:
             t, _, _, _ = parse_cv_ref(p['type'].get('desugaredQualType', p['type']['qualType']))
@@ -1458,6 +1469,14 @@ class Emitter:
         suffix = {'unsigned int': 'u', 'unsigned long': 'ul', 'long': 'l', 'long long': 'll'}.get(ct.base, '')
         return e['value'] + suffix
 
+    def rv_UnaryExprOrTypeTraitExpr(self, e, out):
+        # sizeof(T) / sizeof expr
+        if e.get('name') != 'sizeof':
+            raise ExtractError('type trait %s' % e.get('name'))
+        if 'argType' in e:
+            return '((bg_size)sizeof(%s))' % self.ctype(e['argType']).value_decl()
+        return '((bg_size)sizeof(%s))' % self.rv_or_lv(inner(e)[0], out)
+
     def rv_CXXBoolLiteralExpr(self, e, out):
         return '1' if e['value'] else '0'
 
@@ -1547,6 +1566,17 @@ class Emitter:
             if tgt.cname == 'bg_uset_it':
                 # libstdc++'s hash iterators compare through their common base: one shim type for both
                 return self.rv_or_lv(sube, out)
+            if tgt.cname in ('bg_ifstream', 'bg_ofstream', 'bg_ios'):
+                # file streams: basic_[io]stream is the shim type itself, basic_ios its member `base`
+                src_t = self.ctype(sube['type'])
+                if src_t.cname == tgt.cname:
+                    path_len = 0
+                elif tgt.cname == 'bg_ios':
+                    path_len = 1
+                else:
+                    raise ExtractError('stream cast %s -> %s' % (src_t.cname, tgt.cname))
+                if path_len == 0:
+                    return self.rv_or_lv(sube, out) if not (tgt.ptr or sube['kind'] == 'CXXThisExpr') else self.rv(sube, out)
             if tgt.ptr or sube['kind'] == 'CXXThisExpr':
                 b = self.rv(sube, out)
                 if b.startswith('&'):
@@ -1972,7 +2002,16 @@ class Emitter:
             else:
                 cargs = self.call_args(args, out)
             return self.finish_call(e, '%s(%s)' % (fn, ', '.join(cargs)), out, False, False, discard)
+        if ot.base == 'std::_Ios_Openmode' and opname == 'operator|':
+            return '(%s | %s)' % (self.rv(args[0], out), self.rv(args[1], out))
         raise ExtractError('no rule for free operator %s on %r' % (opname, ot.base))
+
+    def rv_CXXReinterpretCastExpr(self, e, out):
+        # reinterpret_cast<[const] char *>(&value): the object representation, handed to a stream shim
+        ct = self.ctype(e['type'])
+        if not (ct.ptr == 1 and ct.cname == 'char'):
+            raise ExtractError('reinterpret_cast to %s' % ct.decl())
+        return '((%schar *)%s)' % ('const ' if ct.is_const else '', self.rv(inner(e)[0], out))
 
     def ex_CallExpr(self, e, out, want_lv, discard=False):
         parts = inner(e)
@@ -2028,6 +2067,7 @@ GLOBAL_VARS = {
     'BASEGRAPH_VERTEX_MAX': 'BG_VERTEX_MAX',
     'BASEGRAPH_INFINITY': 'BG_INFINITY',
     'SYSTEM_IS_BIG_ENDIAN': 'bg_SYSTEM_IS_BIG_ENDIAN',
+    'in': 'BG_IOS_IN', 'out': 'BG_IOS_OUT', 'binary': 'BG_IOS_BINARY',   # std::ios_base::openmode constants
 }
 FREE_SHIMS = {}
 
